@@ -154,3 +154,41 @@ Example C05_collision_example :
     [OInserted; OInserted; ONone; OInserted; OExists; OExists; OExists] /\
   abs (tbl (final (fun _ => 0%nat) (mkS (create 1) 0) [EPresent kb; EPresent ka; EPresent kc])) = [ka; kb; kc].
 Proof. vm_compute. split; reflexivity. Qed.
+
+(* ---- source-level tie of the replay stage (tools/facts/cfun.py -> gen/GenCredFun.v: dec_process_msg and
+        dec_validate_replay TRANSLATED from the C text on every run; CredPipe.v).  For every interpretation of the
+        stage functions: the replay cache is consulted LAST (after authorization and the time window), a failing stage
+        ends the chain, and the record is taken back exactly when the reply of a successful decode could not be sent -
+        not for a replayed, expired or unauthorized one. ---- *)
+From Coq Require Import ZArith String.
+From MV Require Import CredModel CredFun CredPipe.
+From MV.gen Require Import GenCred GenCredFun.
+Theorem C05_source_decode_control : forall (S : Type) (ops : pipe_ops S) (s : S),
+  src_dec_process_msg ops s = pipe_control ops dec_stage_order soft_err true s.
+Proof. exact src_dec_process_msg_is_pipe. Qed.
+Print Assumptions C05_source_decode_control.
+Theorem C05_source_record_taken_back_exactly_when : forall (fail : string -> option N) (send_ok : bool),
+  t_unplayed (snd (src_dec_process_msg (trace_ops fail send_ok) t0)) = negb send_ok && all_succeed fail dec_stage_order.
+Proof. exact src_dec_unplay_iff. Qed.
+Print Assumptions C05_source_record_taken_back_exactly_when.
+(* replay_insert's outcome x the retry exemption, as in the model's replay stage *)
+Theorem C05_source_replay_stage : forall (cf : conf) (ins en : Z) (m : msg),
+  src_dec_validate_replay cf ins en m =
+  ((if (ins =? 0)%Z then 0
+    else if (ins >? 0)%Z
+         then (if cf_socket_retry cf && (0 <? m_retry m) && (m_retry m <=? c_retry_attempts) then 0 else e_cred_replayed)
+    else if (en =? 12)%Z then e_no_memory else e_snafu), m).
+Proof. exact dec_validate_replay_is_source. Qed.
+Print Assumptions C05_source_replay_stage.
+(* the translated dec_process_msg over the model's stage functions IS CredModel.dec_process (+ dec_rollback when the
+   reply could not be sent): reply, replay state afterwards, return code *)
+Theorem C05_source_pipeline_is_model :
+  forall (hmac : N -> bytes -> bytes -> bytes) (sha1 : bytes -> bytes) (blk_dec : N -> bytes -> bytes -> bytes)
+         (zdecomp : N -> bytes -> N -> option bytes) (cf : conf) (mem : N -> N -> bool) (pu pg now : N)
+         (rs : CredModel.rstate) (m : msg) (send_ok : bool),
+  let '(rc, s) := src_dec_process_msg (dec_ops hmac sha1 blk_dec zdecomp cf mem pu pg now send_ok) (dinit m rs) in
+  let '(r, rs', k) := dec_process hmac sha1 blk_dec zdecomp cf mem rs m pu pg now in
+  d_msg s = r /\ d_rs s = (if send_ok then rs' else dec_rollback rs' k) /\
+  rc = (if send_ok then match k with Some _ => 0 | None => -1 end else -1)%Z.
+Proof. exact dec_process_is_source. Qed.
+Print Assumptions C05_source_pipeline_is_model.
